@@ -430,6 +430,7 @@ class BudgetExceeded(BaseException):
     """I/O budget of a ProxyFile exceeded (BaseException so the code under test cannot swallow it)."""
 
 
+SEEN_STREAMS: list = []  # stream objects the contracts saw during the case (worker closes them, then checks the caller's handles)
 LIVE_PROXIES: list = []  # weak references to the proxies handed out in the current case
 ALL_PROXIES: list = []  # the same proxies, strongly held until the case is over (to see who closed them)
 
@@ -488,7 +489,7 @@ class ProxyFile:
     def __init__(self, fh, name: str | None = None, budget: int | None = None, log_calls: bool = False, claims_writable: bool = False):
         self._fh = fh
         self.claims_writable = claims_writable  # answer writable() with True (like BytesIO / "r+b" handles do)
-        if name is not None:
+        if name:
             self.name = name
         self.budget = budget
         self.bytes_read = 0
@@ -639,6 +640,9 @@ def as_handle(backing, *, proxy: bool = True, name: str | None = None, budget: i
     if claims_writable is None:
         _HANDLE_COUNTER[0] += 1
         claims_writable = _HANDLE_COUNTER[0] % 2 == 0
+        if name is None and _HANDLE_COUNTER[0] % 3 == 0:
+            # like a real file object the caller opened: it has a name, and it is still the caller's
+            name = f"/vf-no-such-dir/caller-owned-{_HANDLE_COUNTER[0]}.img"
     if isinstance(backing, (bytes, bytearray)):
         fh = io.BytesIO(bytes(backing))
     elif isinstance(backing, SparseFile):
